@@ -349,7 +349,7 @@ def c03_dialect_takes(rep, tier, coverage, ctx):
     import scoperun, copy
     d = workdir("C03-dialects")
     rnd = random.Random(seed() + 3)
-    acc = [x for x in ctx["accepted"] if any(s["op"] == "take" or (s["op"] in ("group", "window") and any(y["op"] == "take" for y in s["pipe"])) for s in x[0]["steps"])]
+    acc = [x for x in ctx["accepted"] if any(s["op"] in ("take", "sort") or (s["op"] in ("group", "window") and any(y["op"] == "take" for y in s["pipe"])) for s in x[0]["steps"])]
     acc = acc if len(acc) <= (500 if tier == "quick" else 5000) else rnd.sample(acc, 500 if tier == "quick" else 5000)
     progs = []
     for i, (p, names) in enumerate(acc):
@@ -361,20 +361,29 @@ def c03_dialect_takes(rep, tier, coverage, ctx):
     src_of = {r["id"]: r["src"] for r in srcs}; prog_of = {p["id"]: p for p in progs}
     ref = scoperun.run(d, srcs, dialects="sqlite", nsh=4, tag="ref-", keep_events=True)
     # SQLite spells "no upper bound" LIMIT -1 (documented); as an expectation it is an absent limit
-    expect = {pid: [["" if l == "-1" else l, o] for l, o in tk] for (pid, dl), tk in ref["takes_seen"].items()}
+    expect = {pid: [["" if l == "-1" else l, o, dr] for l, o, dr in tk] for (pid, dl), tk in ref["takes_seen"].items()}
     others = "ansi,bigquery,clickhouse,duckdb,generic,glaredb,mssql,mysql,postgres,redshift,snowflake"
     judged = [s_ for s_ in srcs if s_["id"] in expect]
     # binding demonstration: the same program once more with a wrong expectation must be rejected by rule TakesOk
-    probe = next((s_ for s_ in judged if expect[s_["id"]]), None)
+    probe = next((s_ for s_ in judged if any(l != "final" for l, _, _ in expect[s_["id"]])), None)
+    probe2 = None
     if probe is not None:
         judged.append(dict(probe, id="selftest-takes"))
-        expect["selftest-takes"] = [[(l + "1") if l else "7", o] for l, o in expect[probe["id"]]]
+        expect["selftest-takes"] = [[(l + "1") if l and l != "final" else ("7" if not l else l), o, dr] for l, o, dr in expect[probe["id"]]]
+        # ... and once with a wrong direction of the first ordering key
+        probe2 = next((s_ for s_ in judged if any(dr for _, _, dr in expect[s_["id"]])), None)
+        if probe2 is not None:
+            judged.append(dict(probe2, id="selftest-order"))
+            flip = lambda dr: ("d" if dr[0] == "a" else "a") + dr[1:] if dr else dr
+            expect["selftest-order"] = [[l, o, flip(dr)] for l, o, dr in expect[probe2["id"]]]
     sr = scoperun.run(d, judged, dialects=others, expect_takes=expect)
     if probe is not None:
         st = [r for r in sr["rejects"] if r["id"] == "selftest-takes" and r["verdict"] == "takes"]
         if not st:
             raise ToolError("C03 selftest: a wrong (LIMIT, OFFSET) expectation was not rejected")
-        sr["rejects"] = [r for r in sr["rejects"] if r["id"] != "selftest-takes"]
+        if probe2 is not None and not [r for r in sr["rejects"] if r["id"] == "selftest-order" and r["verdict"] == "takes"]:
+            raise ToolError("C03 selftest: a wrong ORDER BY direction expectation was not rejected")
+        sr["rejects"] = [r for r in sr["rejects"] if r["id"] not in ("selftest-takes", "selftest-order")]
     n = 0
     import tags
     for rj in sr["rejects"]:
